@@ -11,6 +11,11 @@ pub mod stubs;
 
 pub mod c07;
 pub mod c08;
+pub mod c09;
+pub mod c10;
+pub mod c11;
+pub mod c13;
+pub mod c02;
 pub mod c03;
 pub mod c05;
 pub mod c06;
